@@ -93,6 +93,11 @@ func runTasks(tasks []C19Task, s *simrt.Sched, only int) *c19Run {
 		callBase[ti] = n
 		n += len(t.Calls)
 	}
+	type heldErr struct {
+		ti, ci int
+		e      error
+	}
+	var errObjs []heldErr
 	var simTasks []*simrt.Task
 	var monitor func(ran *simrt.Task, reason string)
 	for ti := range tasks {
@@ -114,10 +119,14 @@ func runTasks(tasks []C19Task, s *simrt.Sched, only int) *c19Run {
 					run.results[ti][ci] = Result{Panic: "unknown op " + c.Op}
 					continue
 				}
+				delete(lastErr, cur.ID)
 				simrt.CallDepth(1)
 				res := guard(func() Result { return spec.Exec(c, bs[ti].args[ci]) })
 				simrt.CallDepth(0)
 				run.results[ti][ci] = res
+				if e := lastErr[cur.ID]; e != nil {
+					errObjs = append(errObjs, heldErr{ti, ci, e})
+				}
 				monitor(simrt.CurTask(), "call-end") // attribute state changes to the call that made them
 				s.CommitReads(simrt.CurTask(), callClock)
 			}
@@ -198,6 +207,17 @@ func runTasks(tasks []C19Task, s *simrt.Sched, only int) *c19Run {
 		return run
 	}
 	run.overrun = s.Overrun
+	// the errors the calls returned, read again now that everything has run
+	for _, h := range errObjs {
+		func() {
+			defer func() {
+				if r := recover(); r != nil {
+					run.results[h.ti][h.ci].ErrLate = fmt.Sprint("panic: ", r)
+				}
+			}()
+			run.results[h.ti][h.ci].ErrLate = h.e.Error()
+		}()
+	}
 	// two tasks changed the same component of a package variable and the calls in which they
 	// did share no synchronisation object: whatever each of them locked, it was not the same
 	// thing (a mutex locked on a copy, two different locks for one datum)
@@ -422,6 +442,13 @@ func genC19Tasks(g *Gen, seed uint64, idx int64) []C19Task {
 				call = prev[g.R.Intn(len(prev))].clone()
 			} else {
 				call = pick().Gen(g)
+			}
+			if g.R.Chance(1, 8) && len(call.IDs) > 0 {
+				// error paths are paths too: a malformed or out-of-range ID somewhere in the list
+				call = call.clone()
+				bad := []string{"not-an-id", "1/2/3", "5/x/1/5/0", "7/1/2"}[g.R.Intn(4)]
+				pos := g.R.Intn(len(call.IDs) + 1)
+				call.IDs = append(call.IDs[:pos], append([]string{bad}, call.IDs[pos:]...)...)
 			}
 			prev = append(prev, call)
 			tasks[ti].Calls = append(tasks[ti].Calls, call)
